@@ -17,7 +17,7 @@
                         authority's meta and renaming it (pc StMetaRename).  The three known findings S13 / S13b /
                         S13c are exactly the schedules excluded by it (c18_witnesses_are_overlaps). *)
 From RipV Require Import Base.Prelude Model.Authority Proofs.AuthorityInv Proofs.AuthorityLive Proofs.AuthorityTake Proofs.AuthorityProofs.
-From RipV Require Import Proofs.AuthorityFair Proofs.AuthorityRounds.
+From RipV Require Import Proofs.AuthorityFair Proofs.AuthorityRounds Proofs.AuthorityFresh.
 From RipV Require Import Model.AuthorityGrace Proofs.AuthorityGraceProofs Proofs.AuthorityBridge.
 
 (* ---- exclusive create: no dead leftovers (no files at all), ANY number of contenders, ANY crash-free schedule *)
@@ -258,6 +258,32 @@ Example c18_fair_rounds_example :
   /\ holders (run true (init (LRec 900) (MRec 900) fair_two) (concat (repeat rr_round 11))) = []
   /\ holders (run true (init (LRec 900) (MRec 900) fair_two) (concat (repeat rr_round 12))) = [1].
 Proof. exact fair_rounds_example. Qed.
+
+(* ---- crashes DURING recovery, arbitrary environment answers: whatever any number of server loops (distinct pids) did on a
+   store with an all-dead leftover — any interleaving, any of them crashing anywhere (a contender that crashes between its
+   exclusive create and its write leaves a NEW half-written lock of a dead pid), any ping / timer / deadline answers —
+   as long as none of them has become the authority: a FRESH server loop (process i, never scheduled in es) that is then left
+   alone becomes the authority within 20 steps, unless a LIVE contender is between its create and its write (one own step
+   from the guard).  "A store whose previous authority crashed becomes usable again" for every crash point of the recovery. *)
+Theorem c18_fresh_start_recovers :
+  forall (l : lockf) (m : metaf) (ps : list proc) (es : list event) (i : nat) (me : pid),
+  (forall q, In q ps -> q = fresh (p_pid q) DServer) -> NoDup (map p_pid ps) -> dead_leftover ps l m ->
+  nth_error ps i = Some (fresh me DServer) -> (forall e, In e es -> ev_idx e <> i) ->
+  (exists es1 es2 : list event, es = es1 ++ es2 /\ holders (run true (init l m ps) es1) <> [])
+  \/ (exists q : proc, In q (s_procs (run true (init l m ps) es)) /\ p_alive q = true /\ p_pc q = AcqWrite)
+  \/ (exists n : nat, (n <= 20)%nat /\ holders (run true (init l m ps) (es ++ repeat (Step i 2) n)) <> []).
+Proof. exact fresh_start_recovers. Qed.
+Print Assumptions c18_fresh_start_recovers.
+
+Example c18_fresh_start_example :
+  NoDup (map p_pid fresh_three) /\ dead_leftover fresh_three LAbsent MAbsent
+  /\ (forall e, In e crash_mid -> ev_idx e <> 2%nat)
+  /\ s_lock (run true (init LAbsent MAbsent fresh_three) crash_mid) = LHalf 1
+  /\ map (fun q => (p_alive q, pc_code (p_pc q))) (s_procs (run true (init LAbsent MAbsent fresh_three) crash_mid))
+     = [(false, 2); (true, 0); (true, 1)]
+  /\ holders (run true (init LAbsent MAbsent fresh_three) crash_mid) = []
+  /\ holders (run true (init LAbsent MAbsent fresh_three) (crash_mid ++ repeat (Step 2%nat 2) 8)) = [3].
+Proof. exact fresh_example. Qed.
 
 (* ==== the corrupt-lock grace timer (Model/AuthorityGrace.v) ===========================================================
    Above, "lock json invalid for > 1 s" is an adversarial answer constrained by `assume_grace`.  Here is where the answer
